@@ -272,7 +272,7 @@ template<class T, size_t N, int S, int PK, int F> static void lu_case(const char
     std::vector<long long> shape; shape.push_back(L.dimension(0)); shape.push_back(L.dimension(1)); shape.push_back(U.dimension(0)); shape.push_back(U.dimension(1));
     vt::Ev ev("LU"); begin_event(ev, id, head, md);
     ev.s += "},\"out\":{\"x\":0";
-    ev.ints("Lc", classes(L.data(), n * n)).ints("Uc", classes(U.data(), n * n)).ints("shape", shape);
+    ev.ints("shape", shape).ints("Lc", classes(L.data(), n * n)).ints("Uc", classes(U.data(), n * n));
     ev.ints("P", praw).ints("perm", as_ll_vec(p)).num("pok", pok ? 1 : 0);
     ev.arr("PA", PAl.data(), n * n).arr("back", back.data(), n * n);
     ev.num("exact", exact ? 1 : 0).num("ls", ls).num("us", us).ints("Ls", Ls).ints("Us", Us);
@@ -367,10 +367,182 @@ template<class T, size_t N, int S, int PK, int F> static void qr_case(const char
     std::vector<long long> shape; shape.push_back(Q.dimension(0)); shape.push_back(Q.dimension(1)); shape.push_back(Rm.dimension(0)); shape.push_back(Rm.dimension(1));
     vt::Ev ev("QR"); begin_event(ev, id, head, md);
     ev.s += "},\"out\":{\"x\":0";
-    ev.ints("Rc", classes(Rm.data(), n * n)).ints("shape", shape);
+    ev.ints("shape", shape).ints("Rc", classes(Rm.data(), n * n));
     ev.ints("P", praw).ints("perm", as_ll_vec(p)).num("pok", pok ? 1 : 0).arr("PA", PAl.data(), n * n);
     ev.num("exact", exact ? 1 : 0).num("qs", qs).num("rs", rs).ints("Qs", Qs).ints("Rs", Rs).num("detexact", detexact).num("dets", dets);
     ev.num("r_orth", r_orth).num("r_row", r_row).num("r_col", r_col).num("hasdet", hasdet).num("r_det", r_det).num("cond_milli", milli(c, 1.0L));
     ev.s += "}"; ev.emit();
 }
 '''
+
+# ------------------------------------------------------------------------------------------------------
+KIND_SHORT = {"Inverse": "inv", "LU": "lu", "Solve": "solve", "QR": "qr"}
+INV_S = {"SimpleInv": 0, "SimpleInvPiv": 1, "BlockLU": 2, "BlockLUPiv": 3, "SimpleLU": 4, "SimpleLUPiv": 5, "lut": 6, "ut": 7}
+INV_F = {"eager": 0, "expr": 1, "lazy": 2, "lazy_expr": 3}
+LU_S = {"BlockLU": 0, "BlockLUPiv": 1, "SimpleLU": 2, "SimpleLUPiv": 3}
+SOLVE_S = {"SimpleInv": 0, "SimpleInvPiv": 1, "BlockLU": 2, "BlockLUPiv": 3, "SimpleLU": 4, "SimpleLUPiv": 5, "fwdsub": 6, "bwdsub": 7}
+SOLVE_F = {"eager": 0, "expr_Ab": 1, "expr_A": 2, "expr_b": 3}
+QR_S = {"MGSR": 0, "MGSRPiv": 1}
+PK = {"none": 0, "V": 1, "M": 2}
+EF = {"eager": 0, "expr": 1}
+# mirrors Linalg!InDomain (only used to COUNT the skipped cases for the evidence; the judge applies the spec's own constants)
+COND_MAX_MILLI = 10000 * 1000
+GROWTH_MAX_MILLI = 16 * 1000
+
+
+def mat_name(m):
+    return "%s-n%d-d%d-v%d" % (m["fam"], m["n"], m["d"], m["v"])
+
+
+def size_class(n, tier):
+    """TU granularity: compile time is dominated by the unrolled kernels of the big orders, so those get a TU each."""
+    if n <= 5:
+        return "a01_05"
+    if n <= 9:
+        return "b06_09"
+    if n <= 12:
+        return "c10_12"
+    return "n%02d" % n
+
+
+class LinalgCheck(Check):
+    kind = None                       # "Inverse" | "LU" | "Solve" | "QR"
+    trace_module = "TraceLinalg"
+    trace_cfg = "TraceLinalg.cfg"
+    assumptions_common = [
+        "the rounding bound is judged, not computed, by the specification: a Fastor-independent long-double routine (namespace lref, compiled before the "
+        "Fastor include) measures every residual and logs ratio_milli = ceil(1000*resid/(n*eps*scale)); TLC accepts iff ratio_milli <= 16000 (Linalg!JudgeRatio)",
+        "input matrices are integers (or integers / 2^sA) produced by the TLC generator from VERIF_SEED, exactly representable in float and double",
+        "cases whose measured cond_inf(A) > 1e4 or whose reference no-pivot growth || |L||U| ||/||A|| > 16 are outside the property's domain: skipped and counted (Linalg!InDomain)",
+        "exact re-verification by TLC applies only when a result is a dyadic with denominator <= 2^12 and n <= 33, and is used as exact => (identity <=> measured residual = 0); "
+        "a floating result is never required to be exact",
+        "the static pre-pivot is transcribed (Linalg!StaticPivot) only to choose inputs on which the pivoted strategies are defined; outputs are judged for the permutation that was returned",
+    ]
+
+    def model_checks(self, ctx):
+        model_check(ctx, "BlockLinalg", "MC_BlockLinalg.cfg", workers=1)
+
+    def configs(self, ctx):
+        if ctx.tier == "quick":
+            return list(QUICK_CFGS)
+        return ["%s-14-O2" % i for i in ALL_ISAS] + ["sse2-17-O2", "avx2-17-O2", "avx512-17-O2"]
+
+    # ---- plan --------------------------------------------------------------------------------------
+    def plan(self, ctx):
+        cfg = "GenLinalg_%s_%s.cfg" % (self.kind, ctx.tier)
+        t = time.time()
+        items, gen, dist, out = tlc_emit(ctx, "GenLinalg", cfg, env={"VERIF_SEED": str(ctx.seed)}, timeout=1500)
+        if "No error has been found" not in out:
+            raise ToolFailure("GenLinalg: an emitted case is outside the property's domain, or generator error: " + out[-1500:])
+        ctx.mc_results.append({"module": "GenLinalg", "cfg": cfg, "generated": gen, "distinct": dist, "ok": True,
+                               "wall_s": round(time.time() - t, 1), "action_coverage": {}})
+        cases, self.mats = [], {}
+        for m in items:
+            name = mat_name(m)
+            self.mats[name] = m
+            for call in m["calls"]:
+                c = {"e": self.kind, "mat": name, "n": m["n"], "fam": m["fam"], "d": m["d"], "v": m["v"], "nb": m["nb"], "sA": m["sA"]}
+                c.update(call)
+                c["rhs"] = "none" if self.kind != "Solve" else ("vec" if call["k"] == 0 else "mat")
+                cid = "%s/%s/%s/%s/%s" % (KIND_SHORT[self.kind], call["strategy"], call["form"], call["T"], name)
+                if call["pk"] != "none":
+                    cid += "/P" + call["pk"]
+                if self.kind == "Solve":
+                    cid += "/k%d" % call["k"]
+                c["case"] = cid
+                cases.append(c)
+        cases.sort(key=lambda c: c["case"])
+        if len({c["case"] for c in cases}) != len(cases):
+            raise ToolFailure("duplicate case ids in the plan")
+        self.plan_stats = {"matrices": len(items),
+                           "matrices_by_family": {f: sum(1 for m in items if m["fam"] == f) for f in sorted({m["fam"] for m in items})},
+                           "permuted_matrices": sum(1 for m in items if m["v"] > 0),
+                           "non_involutive_permutations": sum(1 for m in items if m["v"] > 0 and [m["sigma"][s] for s in m["sigma"]] != list(range(m["n"]))),
+                           "calls_by_strategy": {s: sum(1 for c in cases if c["strategy"] == s) for s in sorted({c["strategy"] for c in cases})},
+                           "calls_by_form": {s: sum(1 for c in cases if c["form"] == s) for s in sorted({c["form"] for c in cases})},
+                           "sizes": sorted({m["n"] for m in items})}
+        return cases
+
+    # ---- codegen -----------------------------------------------------------------------------------
+    def head(self, c):
+        h = '"T":"%s","strategy":"%s","form":"%s","pk":"%s","rhs":"%s","fam":"%s","d":%d,"v":%d,"need":"%s"' % (
+            c["T"], c["strategy"], c["form"], c["pk"], c["rhs"], c["fam"], c["d"], c["v"], c["need"])
+        return h.replace('"', '\\"')
+
+    def stmt(self, c):
+        T, n, D = CXX_T[c["T"]], c["n"], "D_" + re.sub(r"[^A-Za-z0-9]", "_", c["mat"])
+        args = '("%s","%s",%s);' % (c["case"], self.head(c), D)
+        k = self.kind
+        if k == "Inverse":
+            if c["form"] == "batch3":
+                return "    invb_case<%s,%d,3,0>%s" % (T, n, args)
+            if c["form"] == "batch23":
+                return "    invb_case<%s,%d,2,3>%s" % (T, n, args)
+            return "    inv_case<%s,%d,%d,%d>%s" % (T, n, INV_S[c["strategy"]], INV_F[c["form"]], args)
+        if k == "LU":
+            return "    lu_case<%s,%d,%d,%d,%d>%s" % (T, n, LU_S[c["strategy"]], PK[c["pk"]], EF[c["form"]], args)
+        if k == "Solve":
+            return "    solve_case<%s,%d,%d,%d,%d>%s" % (T, n, c["k"], SOLVE_S[c["strategy"]], SOLVE_F[c["form"]], args)
+        if k == "QR":
+            return "    qr_case<%s,%d,%d,%d,%d>%s" % (T, n, QR_S[c["strategy"]], PK[c["pk"]], EF[c["form"]], args)
+        raise ToolFailure("unknown kind " + str(k))
+
+    def unit_key(self, ctx, c):
+        key = "%s_%s_%s" % (KIND_SHORT[self.kind], c["T"], size_class(c["n"], ctx.tier))
+        if c["n"] >= 64:
+            key += "_" + c["strategy"]          # LU-based strategies cost ~40 s each at n = 65
+        return key
+
+    def units(self, ctx, plan, cfgname):
+        groups = {}
+        for c in plan:
+            groups.setdefault(self.unit_key(ctx, c), []).append(c)
+        units = []
+        for key in sorted(groups):
+            cs = sorted(groups[key], key=lambda c: c["case"])
+            decl = []
+            for name in sorted({c["mat"] for c in cs}):
+                m = self.mats[name]
+                ident = re.sub(r"[^A-Za-z0-9]", "_", name)
+                decl.append("static const int M_%s[] = {%s};" % (ident, ",".join(str(x) for x in m["A"])))
+                decl.append('static const MatD D_%s = {"%s", %d, %d, %d, M_%s};' % (ident, name, m["n"], m["nb"], m["sA"], ident))
+            src = PRELUDE + "\n".join(decl) + "\nint main(int argc, char** argv) {\n    vt::open(argc, argv, \"%s\");\n    vt::install_handlers();\n" % cfgname
+            src += "\n".join(self.stmt(c) for c in cs) + "\n    vt::close_ok();\n    return 0;\n}\n"
+            units.append((key, src, []))
+        return units
+
+    # ---- evidence helpers --------------------------------------------------------------------------
+    RATIO_KEYS = ("r1", "r2", "r_lu", "r_rec", "r", "r_orth", "r_row", "r_det")
+
+    def post_events(self, ctx, traces):
+        skipped, exact, worst, n_ev = 0, 0, 0, 0
+        for cfgname, evs in traces.items():
+            for ev in evs:
+                o = ev.get("out")
+                if not isinstance(o, dict) or "cond_milli" not in o:
+                    continue
+                n_ev += 1
+                cm = o["cond_milli"] if isinstance(o["cond_milli"], list) else [o["cond_milli"]]
+                ood = max(cm) > COND_MAX_MILLI or o.get("growth_milli", 0) > GROWTH_MAX_MILLI
+                skipped += 1 if ood else 0
+                exact += 1 if o.get("exact") == 1 else 0
+                if not ood:
+                    for k in self.RATIO_KEYS:
+                        if k in o:
+                            v = o[k] if isinstance(o[k], list) else [o[k]]
+                            if k == "r_row":
+                                v = [min(o["r_row"], o["r_col"])]
+                            worst = max(worst, max(v) if v else 0)
+        self.stats = {"evaluations": n_ev, "skipped_out_of_domain": skipped, "exactly_reverified_by_TLC": exact, "largest_ratio_milli_in_domain": worst}
+        return traces
+
+    def event_weight(self, ev):
+        n = ev.get("in", {}).get("n", 1)
+        exact = any(o["out"].get("exact") == 1 for o in ev.get("outs", []) if isinstance(o.get("out"), dict))
+        return 1 + n * n + (n * n * n if exact else 0)
+
+    def extra_coverage(self, ctx):
+        d = {"plan": getattr(self, "plan_stats", {})}
+        d.update(getattr(self, "stats", {}))
+        d["bound_C"] = 16
+        return d
